@@ -314,7 +314,19 @@ def check_table(p, res, rname, fq, message, detectors=()):
     from .tables_list import TABLES as LIST
     kw = dict(LIST)[fq]
     want = TABLES.get(fq)
-    f = p.func(fq)
+    try:
+        f = p.func(fq)
+    except AnalysisError:
+        # a closure that became a method / a module-level function (or the reverse) keeps its name: the one function of that
+        # name in the same module is compared instead (its rows are then usually undecided: closure variables became fields)
+        mod = fq
+        while mod and ('emmet.' + mod) not in p.modules:
+            mod = mod.rsplit('.', 1)[0] if '.' in mod else ''
+        cands = [g for g in p.funcs.values() if g.module.name == 'emmet.' + mod and g.name == fq.rsplit('.', 1)[-1]]
+        if len(cands) != 1:
+            raise
+        f = cands[0]
+        res.notes.append('%s is gone; %s is compared with its reviewed table' % (fq, f.short))
     if want is None:
         res.undecided('%s: decision table' % fq, 'no reviewed table (the function has too many paths to tabulate): ' + message)
         return 'undecided'
